@@ -83,6 +83,7 @@ type MyNode struct {
 	StartupUnix                      int64
 	WaitingAck                       bool // a commit is stuck waiting for a semi-sync ACK
 	StuckRO                          int  // number of SET read_only attempts that fail with 1205 before succeeding (-1 = always)
+	ClearErrOnStart                  bool // START REPLICA clears a non-permanent replication error (environment's choice)
 	StuckUntilSSDisable              bool // SET read_only fails with 1205 until semi-sync is switched off (commits stuck waiting for an ACK)
 	ProcessIDs                       []int
 	LagWhenRunning                   float64
@@ -725,6 +726,14 @@ func (w *World) apply(n *MyNode, op, arg string) (cols []string, rows [][]string
 	case "start_replica":
 		if n.Repl == nil {
 			return nil, nil, false, 1200 // ER_BAD_REPLICA: not configured as replica
+		}
+		if n.ClearErrOnStart {
+			if n.Repl.IOErrno != 1236 && n.Repl.IOErrno != 13114 {
+				n.Repl.IOErrno = 0
+			}
+			if n.Repl.SQLErrno != 1146 && n.Repl.SQLErrno != 1118 {
+				n.Repl.SQLErrno = 0
+			}
 		}
 		if n.Repl.IOErrno == 0 {
 			n.Repl.IO = true
